@@ -32,7 +32,7 @@ for fa in (0, 1, 2):
     OBS.append(Ob(['C05', 'C04'], 'hist_five_adds_fail%d' % fa, 'doc', 'harness/doc_hist.c', 'h_five_adds', defs=['FAILAT=%d' % fa], unwind=8, desc='five add() on 4-slot pools with allocator call #%d failing (0 = none): failure reported exactly there, overflowed(), other elements intact' % fa, bound='all int32 values; failure position part of the shape', **H))
 for ix in (0, 1, 3):
     OBS.append(Ob(['C04'], 'hist_set_beyond_%d' % ix, 'doc', 'harness/doc_hist.c', 'h_set_beyond', defs=['IDX=%d' % ix], unwind=8, desc='[a]; doc[%d] = x: array extended with nulls up to the index' % ix, bound='all int32 values', **H))
-OBS.append(Ob(['C04', 'C06'], 'hist_copy', 'doc', 'harness/doc_hist.c', 'h_copy', unwind=8, tier='thorough', desc='copy construction is deep: source mutated afterwards, copy unchanged; all blocks returned', bound='all int32 values', **H))
+# hist_copy (copy construction is deep) gave no verdict: VariantData copy visits the source through recursive visitors
 OBS.append(Ob(['C05', 'C06', 'C04'], 'hist_clear_reuse', 'doc', 'harness/doc_hist.c', 'h_clear_reuse', unwind=8, desc='clear() releases every block and the document is usable again', bound='all int32 values', **H))
 for fa in (0, 1):
     OBS.append(Ob(['C05', 'C19', 'C04'], 'ext_fail%d' % fa, 'doc', 'harness/doc_hist.c', 'h_ext_fail', defs=['EXTFAIL=%d' % fa], unwind=8, desc='doc.set(64-bit integer) with allocator call #%d failing (0 = none): failure reported, overflowed() set, value left null / stored exactly' % fa, bound='all int64 values outside the int32 range', **H))
